@@ -12,6 +12,8 @@ import (
 	"errors"
 	"fmt"
 	"io"
+	"sort"
+	"strings"
 	"sync"
 	"testing"
 	"testing/synctest"
@@ -22,6 +24,8 @@ import (
 	"github.com/refraction-networking/uquic/internal/verif/quicworld"
 	"github.com/refraction-networking/uquic/internal/verif/specgen"
 	"github.com/refraction-networking/uquic/internal/verif/wiretap"
+	"github.com/refraction-networking/uquic/qlog"
+	"github.com/refraction-networking/uquic/qlogwriter"
 	tls "github.com/refraction-networking/utls"
 )
 
@@ -124,6 +128,25 @@ func TestVerifC12Limits(t *testing.T) {
 	}
 }
 
+// c12Trace captures the qlog events of the client connection: "transport:parameters_set" with
+// initiator local is the connection's own record of the parameters it sent.
+type c12Trace struct {
+	mu     sync.Mutex
+	events []qlogwriter.Event
+}
+
+func (t *c12Trace) AddProducer() qlogwriter.Recorder { return &c12Recorder{t} }
+func (t *c12Trace) SupportsSchemas(string) bool      { return true }
+
+type c12Recorder struct{ t *c12Trace }
+
+func (r *c12Recorder) RecordEvent(e qlogwriter.Event) {
+	r.t.mu.Lock()
+	r.t.events = append(r.t.events, e)
+	r.t.mu.Unlock()
+}
+func (r *c12Recorder) Close() error { return nil }
+
 func c12LocalErr(err error) (string, bool) {
 	var te *quic.TransportError
 	var ie *quic.IdleTimeoutError
@@ -170,7 +193,10 @@ func runC12(l *evlog.Log, c *evlog.Case, cs *c12Case, idx int) {
 	// the server side: huge limits of its own, so that only the client's advertised values bound it
 	sconf := &quic.Config{MaxIdleTimeout: 10 * time.Minute, EnableDatagrams: true, MaxIncomingStreams: 5000, MaxIncomingUniStreams: 5000,
 		InitialStreamReceiveWindow: 8 << 20, MaxStreamReceiveWindow: 16 << 20, InitialConnectionReceiveWindow: 16 << 20, MaxConnectionReceiveWindow: 32 << 20, HandshakeIdleTimeout: 10 * time.Second}
-	opt := quicworld.Options{RTT: 10 * time.Millisecond, ClientKind: "spec", Spec: &spec, ClientConf: c12UserConfig(cs.Config), ServerConf: sconf}
+	trace := &c12Trace{}
+	cconf := c12UserConfig(cs.Config)
+	cconf.Tracer = func(context.Context, bool, quic.ConnectionID) qlogwriter.Trace { return trace }
+	opt := quicworld.Options{RTT: 10 * time.Millisecond, ClientKind: "spec", Spec: &spec, ClientConf: cconf, ServerConf: sconf}
 	w, err := quicworld.New(opt)
 	if err != nil {
 		viol("harness", "world: %v", err)
@@ -229,6 +255,62 @@ func runC12(l *evlog.Log, c *evlog.Case, cs *c12Case, idx int) {
 	}
 	w.Wire.Unlock()
 	l.Count("advertised_parameter_sets_read", 1)
+
+	// ---- the connection's own record of its parameters equals the bytes it sent
+	trace.mu.Lock()
+	var rec *qlog.ParametersSet
+	for _, e := range trace.events {
+		if ps, ok := e.(qlog.ParametersSet); ok && ps.Initiator == qlog.InitiatorLocal && !ps.Restore {
+			rec = &ps
+			break
+		}
+	}
+	trace.mu.Unlock()
+	if rec == nil {
+		viol("own-parameter-record-missing", "the client connection recorded no transport:parameters_set event for its own parameters")
+	} else {
+		w.Wire.Lock()
+		cmp := []struct {
+			name string
+			id   uint64
+			got  uint64
+		}{
+			{"max_idle_timeout", wiretap.TPMaxIdleTimeout, uint64(rec.MaxIdleTimeout / time.Millisecond)},
+			{"max_udp_payload_size", wiretap.TPMaxUDPPayloadSize, uint64(rec.MaxUDPPayloadSize)},
+			{"initial_max_data", wiretap.TPInitialMaxData, uint64(rec.InitialMaxData)},
+			{"initial_max_stream_data_bidi_local", wiretap.TPInitialMaxStreamDataBL, uint64(rec.InitialMaxStreamDataBidiLocal)},
+			{"initial_max_stream_data_bidi_remote", wiretap.TPInitialMaxStreamDataBR, uint64(rec.InitialMaxStreamDataBidiRemote)},
+			{"initial_max_stream_data_uni", wiretap.TPInitialMaxStreamDataU, uint64(rec.InitialMaxStreamDataUni)},
+			{"initial_max_streams_bidi", wiretap.TPInitialMaxStreamsBidi, uint64(rec.InitialMaxStreamsBidi)},
+			{"initial_max_streams_uni", wiretap.TPInitialMaxStreamsUni, uint64(rec.InitialMaxStreamsUni)},
+			{"ack_delay_exponent", wiretap.TPAckDelayExponent, uint64(rec.AckDelayExponent)},
+			{"max_ack_delay", wiretap.TPMaxAckDelay, uint64(rec.MaxAckDelay / time.Millisecond)},
+			{"active_connection_id_limit", wiretap.TPActiveConnIDLimit, rec.ActiveConnectionIDLimit},
+			{"max_datagram_frame_size", wiretap.TPMaxDatagramFrameSize, uint64(rec.MaxDatagramFrameSize)},
+		}
+		var diffs []string
+		for _, x := range cmp {
+			if !tp.Has(x.id) {
+				continue // only what is on the wire is compared
+			}
+			if want := tp.Int(x.id, 0); want != x.got {
+				diffs = append(diffs, fmt.Sprintf("%s: wire %d, record %d", x.name, want, x.got))
+			}
+			l.Count("own_record_fields_compared", 1)
+		}
+		if tp.Has(wiretap.TPDisableActiveMigration) != rec.DisableActiveMigration {
+			diffs = append(diffs, fmt.Sprintf("disable_active_migration: wire %v, record %v", tp.Has(wiretap.TPDisableActiveMigration), rec.DisableActiveMigration))
+		}
+		w.Wire.Unlock()
+		if len(diffs) > 0 {
+			sort.Strings(diffs)
+			names := ""
+			for _, d := range diffs {
+				names += d[:strings.Index(d, ":")] + ","
+			}
+			c.Violation(fmt.Sprintf("C12|spec=%s|own-parameter-record-differs-from-wire|%s", specName, names), fmt.Sprint(diffs), map[string]any{"case": cs})
+		}
+	}
 
 	// the client must stay alive and error-free while the server uses what was advertised
 	check := func(stage string) bool {
